@@ -151,8 +151,15 @@ def bytesLe : Bytes → Bytes → Bool
   | _ :: _, [] => false
   | a :: as, b :: bs => if a < b then true else if b < a then false else bytesLe as bs
 
-/-- `sort.Strings` -/
-def sortNames (xs : List Name) : List Name := xs.mergeSort bytesLe
+def insertName (x : Name) : List Name → List Name
+  | [] => [x]
+  | y :: ys => if bytesLe x y then x :: y :: ys else y :: insertName x ys
+
+/-- `sort.Strings` (the result of sorting is unique, so the algorithm does not matter; a structural
+    insertion sort keeps the model reducible by the kernel) -/
+def sortNames : List Name → List Name
+  | [] => []
+  | x :: xs => insertName x (sortNames xs)
 
 /- ---------------- package ast helpers ---------------- -/
 
